@@ -631,7 +631,7 @@ func (it *Interp) invokeMethod(recv Value, m *types.Func, args []Value) Value {
 	if !ok || iv.t == nil {
 		it.goPanicf("runtime error: invalid memory address or nil pointer dereference (method %s on nil interface)", m.Name())
 	}
-	fn := it.prog.LookupMethod(iv.t, m.Pkg(), m.Name())
+	fn := it.lookupMethod(iv.t, m.Pkg(), m.Name())
 	if fn == nil {
 		panic(unsupported(fmt.Sprintf("no method %s on %s", m.Name(), iv.t)))
 	}
@@ -1308,9 +1308,6 @@ func (it *Interp) convert(v Value, from, to types.Type) Value {
 				bs := s.bytes(ts)
 				arr := make([]Value, len(bs))
 				for i, b := range bs {
-					if b.op == OpNum {
-						panic(unsupported("[]byte(string with Num segment)"))
-					}
 					arr[i] = b
 				}
 				return &SliceV{cell: it.newCell(&ArrayV{arr}, nil, "[]byte(str)"), len: len(arr), cap: len(arr)}
@@ -1813,3 +1810,14 @@ func (it *Interp) selectOp(fr *frame, x *ssa.Select) Value {
 }
 
 var _ = math.MaxInt
+
+// lookupMethod returns the concrete method of t named name (nil if there is none).
+func (it *Interp) lookupMethod(t types.Type, pkg *types.Package, name string) *ssa.Function {
+	buildMu.Lock()
+	defer buildMu.Unlock()
+	sel := it.prog.MethodSets.MethodSet(t).Lookup(pkg, name)
+	if sel == nil {
+		return nil
+	}
+	return it.prog.MethodValue(sel)
+}
